@@ -1863,6 +1863,18 @@ package resolve
 
 //@ func Loader.prepareBatchEntityFetch
 //@   requires l != nil && l.ctx != nil && prepared != nil && res != nil
+//@   ghost var g_itemArr int = 0
+//@   ghost var g_hashedArr int = 0 - 1
+//@   ghost var g_sum int = 0
+//@   ghost var g_summed bool = false
+//@   at call Buffer.Bytes: ghost g_itemArr = ite(arg0 == itemInput, arr(result), g_itemArr)
+//@   at call Digest.Reset: ghost g_hashedArr = 0 - 1
+//@   at call Digest.Reset: ghost g_summed = false
+//@   at call Digest.Write: ghost g_hashedArr = ite(g_hashedArr == 0 - 1, arr(arg1), 0 - 2)
+//@   at call Digest.Sum64: ghost g_sum = result
+//@   at call Digest.Sum64: ghost g_summed = true
+//@   at call Buffer.WriteTo: assert {a.representation.is.sent.under.the.hash.of.exactly.its.bytes} arg0 == itemInput ==> g_summed && g_hashedArr == g_itemArr
+//@   at call append: assert {the.cache.key.of.an.entity.is.the.hash.of.its.representation} g_summed && len(arg1) == 1 && arg1[0] == g_sum
 //@   ghost var g_keyed bool = false
 //@   ghost var g_keyArr int = 0
 //@   ghost var g_keyLen int = 0
